@@ -208,7 +208,40 @@ def r5_every_tick_probes(ctx):
         ctx.missing("R14.5", "store of Instant::now() / `self.heartbeat` test in the HeartResponse arm")
 
 
+def r6_monitor_is_the_only_silence_rule(ctx):
+    """the keep-alive monitor is the only code that ends a session because nothing arrived: the receive loop's read carries no
+    deadline of its own (a read deadline equal to the timeout is a second, stricter liveness rule — it tolerates `timeout`
+    between two inbound chunks where the monitor tolerates timeout + interval, so with timeout = interval any jitter in the
+    reply time closes a healthy session)"""
+    from .C11 import _future_calls
+    body = co(ctx, "R14.6", S + "recv_loop")
+    if body is None:
+        return
+    o = ctx.origins(body)
+    reads = [c for c in body.calls() if (c.norm or "").endswith(("AsyncReadExt::read_buf", "AsyncReadExt::read", "AsyncReadExt::read_exact"))]
+    if not ctx.floor("R14.6", "transport reads in recv_loop", len(reads), 1):
+        return
+    wrapped = []
+    for c in body.calls():
+        nm = c.norm or ""
+        if nm.endswith(("time::timeout", "time::timeout_at")) and len(c.args) > 1:
+            ts = [o.of_operand(c.args[1])]
+        elif nm.endswith("future::poll_fn") and c.args:
+            t0 = o.of_operand(c.args[0])
+            ts = [t0] + [o.init_of(s_[2]) for s_ in subterms(t0) if isinstance(s_, tuple) and s_ and s_[0] == "var" and len(s_) > 2]
+        else:
+            continue
+        for t in ts:
+            if any(s_[2] in {r.bb for r in reads} for s_ in _future_calls(t) if isinstance(s_, tuple) and len(s_) > 2):
+                wrapped.append(c)
+    ctx.ob("R14.6", "recv_loop:read-has-no-deadline-of-its-own", not wrapped, wrapped[0].site if wrapped else reads[0].site,
+           "the receive loop waits for input without a deadline; only the monitor decides that a peer is dead" if not wrapped else
+           "the receive loop's read is wrapped in `%s`: a second liveness rule next to the monitor, and a stricter one — with timeout = interval (accepted by the CLI) any variation in the peer's reply time "
+           "exceeds it and a session whose peer answers every request is closed" % wrapped[0].norm.split("::")[-1])
+
+
 def run(ctx):
+    r6_monitor_is_the_only_silence_rule(ctx)
     from . import effects
     effects.check_property(ctx, "C14")    # R14.E: no operation on shared protocol state outside the reviewed table
     r5_every_tick_probes(ctx)
